@@ -524,7 +524,7 @@ fn remove_mapping(state: &mut State, i: usize, removed_key: KeyCode) -> (res: Ve
 //@ C04 C05 C14 | default: fn is_action_mapping
 fn is_action_mapping(m: &Mapping) -> (r: bool)
   ensures
-    //@ C04 C05 | exact test: true iff the output ends in a non-modifier key
+    //@  | helper, exact test: true iff the output ends in a non-modifier key
     r == act_map(*m),
   { //@ | body
   if m.to.len() == 0 {
@@ -541,7 +541,7 @@ pub open spec fn has_action(keys: Seq<KeyCode>) -> bool { exists|j: int| 0 <= j 
 //@ C08 C14 | default: fn has_action_key
 fn has_action_key(keys: &Vec<KeyCode>) -> (r: bool)
   ensures
-    //@ C08 | exact test: true iff the list contains a non-modifier key
+    //@  | helper, exact test: true iff the list contains a non-modifier key
     r == has_action(keys@),
   { //@ | body
   for k in it: keys
@@ -828,7 +828,7 @@ pub proof fn lemma_append_contains<T>(a: Seq<T>, b: Seq<T>)
 //@ C01 C02 C05 C14 | default: fn fails_when_released
 fn fails_when_released(trigger: &Vec<KeyCode>, key: &KeyCode) -> (r: bool)
   ensures
-    //@ C01 C02 C05 | exact test: a mapping is taken out of effect by the release of a key iff that key is one of its trigger keys
+    //@  | helper, exact test: a mapping is taken out of effect by the release of a key iff that key is one of its trigger keys
     r == trigger@.contains(*key),
   { //@ | body
   for k in it: trigger
